@@ -754,6 +754,8 @@ def asan_run(ctx, batch):
             batch, hs = list(batch) + [lo[0]], list(hs) + [h1[0]]
             hs[len(hs) - 2] = [x for x in hs[len(hs) - 2] if not (isinstance(x, str) and x.startswith("DIED rc=98 after"))]
     f = asan_judge(hs, batch) + f
+    if f:      # the report itself is the finding; the unclean exit it causes is not a second one
+        m = [x for x in m if "DIED rc=98" not in str(x.get("what"))]
     if j == 0:
         m.append({"what": "ASan tier: no case was judged"})
     return f, m, "ASan build: %d cases, %d commands judged, %d sanitizer reports" % (j, n, len([x for x in f if x.get("variant") == "asan"]))
@@ -829,7 +831,9 @@ def replay(ctx, obj):
         else:
             print("  does not reproduce (recorded: %s)" % str(f.get("what"))[:300])
     for b in unexecutable:
-        print("cannot be re-executed from the replay file (only a full ./check re-establishes it): " + str(b)[:1200])
+        w = b.get("what") if isinstance(b, dict) else b
+        d = b.get("detail") if isinstance(b, dict) else ""
+        print("cannot be re-executed from the replay file (only a full ./check re-establishes it): %s %s" % (str(w)[:300], str(d)[:300] if d else ""))
     if reproduced:
         return 1
     if executed:
